@@ -309,6 +309,28 @@ Proof.
   exact (proj2 (proj2 (proj2 C09_hypotheses_satisfiable))).
 Qed.
 
+From PS Require Import C01_Basis C09_X16.
+(* What the rows of the order-1 difference matrix of the penalty MEAN (de Boor, PGS X.(16), first derivative): the derivative
+   (BSpline.dBfun, proved to be the analytic derivative in C02) of the spline  sum_i c_i B_{i,n}  is, in the fully supported range,
+   the spline of order n-1 on the same knots with coefficients  n (c_{j+1} - c_j) / (t_{j+1+n} - t_{j+1})  attached to B_{j+1,n-1}
+   (Abel summation; non-decreasing knots, dropped-term convention; any ordered field) ... *)
+Theorem C09_derivative_is_difference_spline : forall (A : Arith) (F : OField A) (kn : Z -> T A) (nknots : Z),
+  (forall i j, (0 <= i)%Z -> (i <= j)%Z -> (j < nknots)%Z -> OFieldKit.le (kn i) (kn j)) ->
+  forall (side : bool) (n1 N : nat) (c : Z -> T A) (x : T A) (l : Z),
+  nknots = (Z.of_nat N + Z.of_nat (S n1) + 1)%Z -> (1 <= N)%nat ->
+  (Z.of_nat (S n1) <= l)%Z -> (l <= Z.of_nat N - 1)%Z -> in_piece kn side l x ->
+  sum_range (fun i => mul (c i) (dBfun kn side 1 (S n1) i x)) 0 N =
+  sum_range (fun j => mul (dcoef n1 c j) (wq kn side n1 x (j + 1))) 0 (N - 1).
+Proof. intros A F kn nknots Hm side n1 N c x l HN HN1 Hl0 Hl1 Hp. exact (deriv_sum_full_support F kn nknots Hm side n1 c x N HN HN1 l Hl0 Hl1 Hp). Qed.
+
+(* ... and those coefficients are what glam.c's divided_diffs (penalty order 1) computes from two neighbouring coefficients *)
+Theorem C09_divided_diffs_order1 : forall (A : Arith) (F : OField A) (knat : nat -> T A) (order j : nat) (c0 c1 : T A),
+  sub (knat (j + order + 1)%nat) (knat (j + 1)%nat) <> zero -> ofZ (Z.of_nat order) <> @zero A ->
+  divided_diffs knat order 1 j = [div (opp one) (delta1 knat order j); div one (delta1 knat order j)] /\
+  add (mul (div (opp one) (delta1 knat order j)) c0) (mul (div one (delta1 knat order j)) c1) =
+  div (mul (ofZ (Z.of_nat order)) (sub c1 c0)) (sub (knat (j + order + 1)%nat) (knat (j + 1)%nat)).
+Proof. intros A F knat order j c0 c1 Hd Ho. split; [apply divided_diffs_order1|apply (stencil1_apply F); assumption]. Qed.
+
 Print Assumptions C09_normal_eq_minimise.
 Print Assumptions C09_fit_minimises.
 Print Assumptions C09_penalty_is_DtD.
@@ -326,3 +348,5 @@ Print Assumptions C09_objective_vocabulary.
 Print Assumptions C09_fit_minimises_penalised_objective.
 Print Assumptions C09_basis_is_cox_de_boor.
 Print Assumptions C09_basis_side.
+Print Assumptions C09_derivative_is_difference_spline.
+Print Assumptions C09_divided_diffs_order1.
